@@ -25,6 +25,12 @@ type flowItem struct {
 // Phi operands whose predecessor block is rejected by keepPred are ignored (branch
 // sensitivity). The result maps byte index -> union of source-bit masks.
 func bitFlow(v ssa.Value, src ssa.Value, keepPred func(*ssa.BasicBlock) bool) map[int64]uint64 {
+	return bitFlowBound(v, src, keepPred, nil)
+}
+
+// bitFlowBound: as bitFlow, for a value inside a helper whose parameters are bound to the
+// caller's argument values (bind): a parameter continues in the caller's value.
+func bitFlowBound(v ssa.Value, src ssa.Value, keepPred func(*ssa.BasicBlock) bool, bind map[*ssa.Parameter]ssa.Value) map[int64]uint64 {
 	seen := map[ssa.Value]bool{}
 	var rec func(x ssa.Value, d int) []flowItem
 	rec = func(x ssa.Value, d int) []flowItem {
@@ -34,11 +40,23 @@ func bitFlow(v ssa.Value, src ssa.Value, keepPred func(*ssa.BasicBlock) bool) ma
 		seen[x] = true
 		defer func() { seen[x] = false }()
 		switch y := x.(type) {
+		case *ssa.Parameter:
+			if a, ok := bind[y]; ok {
+				return rec(a, d+1)
+			}
 		case *ssa.UnOp:
 			if y.Op == token.MUL {
-				if ia, ok := y.X.(*ssa.IndexAddr); ok && sameRoot(ia.X, src) {
-					if i, isK := model.ConstInt(ia.Index); isK {
-						return []flowItem{{i, 0xff, 0}}
+				if ia, ok := y.X.(*ssa.IndexAddr); ok {
+					base := ia.X
+					if prm, isP := base.(*ssa.Parameter); isP {
+						if a, bound := bind[prm]; bound {
+							base = a
+						}
+					}
+					if sameRoot(base, src) {
+						if i, isK := model.ConstInt(ia.Index); isK {
+							return []flowItem{{i, 0xff, 0}}
+						}
 					}
 				}
 			}
@@ -143,36 +161,90 @@ func c12(p *model.Prog, r *report.Result) {
 	// ---------------------------------------------------------------- R1
 	r.Rule("C12.R1", "for each codec branch of PackNal and each fragment kind (non-last / last), the union of bits of nal[0] (and nal[1] for H.265) flowing into the stored header bytes item[0..headerSize-1] covers 0x7F of nal[0] for H.264, and 0x7F of nal[0] plus 0xFF of nal[1] for H.265")
 	type hdrStore struct {
-		st  *ssa.Store
-		idx int64
+		st   *ssa.Store
+		idx  int64
+		bind map[*ssa.Parameter]ssa.Value // nil: the store is in PackNal itself
+		site *ssa.BasicBlock              // the call site's block when the store is in a helper
 	}
 	groups := map[string][]hdrStore{} // key: codec|alloc-site
-	model.EachInstr(fn, func(in ssa.Instruction) {
-		st, ok := in.(*ssa.Store)
-		if !ok {
-			return
-		}
-		ia, ok := st.Addr.(*ssa.IndexAddr)
-		if !ok {
-			return
-		}
-		mk, ok := ia.X.(*ssa.MakeSlice)
-		if !ok {
-			return
-		}
-		i, isK := model.ConstInt(ia.Index)
-		if !isK {
-			return
-		}
-		isAvc, known := branchOf(st.Block())
-		if !known {
+	add := func(codecKnown, isAvc bool, mk *ssa.MakeSlice, hs hdrStore) {
+		if !codecKnown {
 			return
 		}
 		codec := "hevc"
 		if isAvc {
 			codec = "avc"
 		}
-		groups[fmt.Sprintf("%s|%s", codec, p.InstrPos(mk))] = append(groups[fmt.Sprintf("%s|%s", codec, p.InstrPos(mk))], hdrStore{st, i})
+		k := fmt.Sprintf("%s|%s", codec, p.InstrPos(mk))
+		groups[k] = append(groups[k], hs)
+	}
+	model.EachInstr(fn, func(in ssa.Instruction) {
+		switch x := in.(type) {
+		case *ssa.Store:
+			ia, ok := x.Addr.(*ssa.IndexAddr)
+			if !ok {
+				return
+			}
+			mk, ok := ia.X.(*ssa.MakeSlice)
+			if !ok {
+				return
+			}
+			i, isK := model.ConstInt(ia.Index)
+			if !isK {
+				return
+			}
+			isAvc, known := branchOf(x.Block())
+			add(known, isAvc, mk, hdrStore{st: x, idx: i})
+		case *ssa.Call:
+			// a same-package helper given the fragment buffer: its constant-index stores into that
+			// parameter are header stores of the buffer, with the helper's parameters bound to the
+			// arguments of this call
+			ce := x.Call.StaticCallee()
+			if ce == nil || ce.Blocks == nil || ce.Pkg != fn.Pkg || len(ce.Params) != len(x.Call.Args) {
+				return
+			}
+			bind := map[*ssa.Parameter]ssa.Value{}
+			var bufs []struct {
+				prm *ssa.Parameter
+				mk  *ssa.MakeSlice
+			}
+			for k, a := range x.Call.Args {
+				bind[ce.Params[k]] = a
+				if mk, isMk := a.(*ssa.MakeSlice); isMk {
+					bufs = append(bufs, struct {
+						prm *ssa.Parameter
+						mk  *ssa.MakeSlice
+					}{ce.Params[k], mk})
+				}
+			}
+			if len(bufs) == 0 {
+				return
+			}
+			model.EachInstr(ce, func(in2 ssa.Instruction) {
+				st, ok := in2.(*ssa.Store)
+				if !ok {
+					return
+				}
+				ia, ok := st.Addr.(*ssa.IndexAddr)
+				if !ok {
+					return
+				}
+				i, isK := model.ConstInt(ia.Index)
+				if !isK {
+					return
+				}
+				for _, bf := range bufs {
+					if ia.X != ssa.Value(bf.prm) {
+						continue
+					}
+					isAvc, known := branchOf(st.Block())
+					if !known {
+						isAvc, known = branchOf(x.Block())
+					}
+					add(known, isAvc, bf.mk, hdrStore{st: st, idx: i, bind: bind, site: x.Block()})
+				}
+			})
+		}
 	})
 	nGroups := 0
 	for key, sts := range groups {
@@ -184,7 +256,7 @@ func c12(p *model.Prog, r *report.Result) {
 		}
 		cover := map[int64]uint64{}
 		for _, hs := range sts {
-			fl := bitFlow(hs.st.Val, nal, keep)
+			fl := bitFlowBound(hs.st.Val, nal, keep, hs.bind)
 			for i, m := range fl {
 				cover[i] |= m
 			}
@@ -210,42 +282,89 @@ func c12(p *model.Prog, r *report.Result) {
 	// ---------------------------------------------------------------- R2
 	r.Rule("C12.R2", "the start bit (|= 0x80 at the S/E position) is stored only under isFirstFlag, which is cleared right there; the end bit (| 0x40) is stored only in the final-fragment region that leaves the loop")
 	var nStart, nEnd int
+	loopHeaderFirst := func(x ssa.Instruction) bool {
+		for _, l := range model.Loops(fn) {
+			if x.Block() == l.Header && x == l.Header.Instrs[0] {
+				return true
+			}
+		}
+		return false
+	}
+	orConst := func(v ssa.Value) (int64, bool) {
+		b, ok := model.Unwrap(v).(*ssa.BinOp)
+		if !ok || b.Op != token.OR {
+			return 0, false
+		}
+		return model.ConstInt(b.Y)
+	}
+	// isEndMark: the instruction puts the end bit into a fragment buffer (a store of `.. | 0x40`,
+	// or a same-package helper call given `.. | 0x40`)
+	isEndMark := func(in ssa.Instruction) bool {
+		switch x := in.(type) {
+		case *ssa.Store:
+			if _, isIA := x.Addr.(*ssa.IndexAddr); !isIA {
+				return false
+			}
+			k, ok := orConst(x.Val)
+			return ok && k == 0x40
+		case *ssa.Call:
+			if ce := x.Call.StaticCallee(); ce == nil || ce.Pkg != fn.Pkg {
+				return false
+			}
+			for _, a := range x.Call.Args {
+				if k, ok := orConst(a); ok && k == 0x40 {
+					return true
+				}
+			}
+		}
+		return false
+	}
 	model.EachInstr(fn, func(in ssa.Instruction) {
-		st, ok := in.(*ssa.Store)
+		if st, ok := in.(*ssa.Store); ok {
+			if k, isK := orConst(st.Val); isK && k == 0x80 {
+				nStart++
+				ok := model.GuardedBy(st, func(c ssa.Value, pol bool) bool {
+					ph, isPhi := c.(*ssa.Phi)
+					return isPhi && ph.Comment == "isFirstFlag" && pol
+				})
+				r.Check(ok, "C12.R2", fkey(fn, "fu-bits", "start"), p.InstrPos(st), "start bit only while isFirstFlag", "the start bit can be set on a fragment that is not the first")
+			}
+		}
+		if isEndMark(in) {
+			nEnd++
+			// the block must not lead back to the loop header: it is followed by break/return
+			back := model.PathQuery{From: in, Target: loopHeaderFirst}.Find(fn)
+			r.Check(back == nil, "C12.R2", fkey(fn, "fu-bits", "end"), p.InstrPos(in), "end bit only on the fragment that leaves the loop", "the end bit can be set on a fragment that is followed by more fragments")
+		}
+	})
+	// every fragment buffer allocated on the way out of the loop (the final fragment) receives
+	// the end bit on every path to the return, whatever the codec
+	nFinal := 0
+	model.EachInstr(fn, func(in ssa.Instruction) {
+		mk, ok := in.(*ssa.MakeSlice)
 		if !ok {
 			return
 		}
-		b, ok := model.Unwrap(st.Val).(*ssa.BinOp)
-		if !ok || b.Op != token.OR {
+		afterHeader := false
+		for _, l := range model.Loops(fn) {
+			if l.Header.Dominates(mk.Block()) {
+				afterHeader = true
+			}
+		}
+		if !afterHeader {
 			return
 		}
-		k, isK := model.ConstInt(b.Y)
-		if !isK {
+		if (model.PathQuery{From: mk, Target: loopHeaderFirst}).Find(fn) != nil {
 			return
 		}
-		if k == 0x80 {
-			nStart++
-			ok := model.GuardedBy(st, func(c ssa.Value, pol bool) bool {
-				ph, isPhi := c.(*ssa.Phi)
-				return isPhi && ph.Comment == "isFirstFlag" && pol
-			})
-			r.Check(ok, "C12.R2", fkey(fn, "fu-bits", "start"), p.InstrPos(st), "start bit only while isFirstFlag", "the start bit can be set on a fragment that is not the first")
-		}
-		if k == 0x40 {
-			nEnd++
-			// the block must not lead back to the loop header: it is followed by break/return
-			back := model.PathQuery{From: st, Target: func(x ssa.Instruction) bool {
-				for _, l := range model.Loops(fn) {
-					if x.Block() == l.Header && x == l.Header.Instrs[0] {
-						return true
-					}
-				}
-				return false
-			}}.Find(fn)
-			r.Check(back == nil, "C12.R2", fkey(fn, "fu-bits", "end"), p.InstrPos(st), "end bit only on the fragment that leaves the loop", "the end bit can be set on a fragment that is followed by more fragments")
-		}
+		nFinal++
+		miss := model.PathQuery{From: mk, Stop: isEndMark, Target: func(x ssa.Instruction) bool {
+			_, isRet := x.(*ssa.Return)
+			return isRet
+		}}.Find(fn)
+		r.Check(miss == nil, "C12.R2", fkey(fn, "fu-bits", "end-on-final"), p.InstrPos(mk), "the final fragment gets the end bit on every path", "a path from the allocation of the final fragment to the return sets no end bit: the depacketiser never sees the unit complete")
 	})
-	if nStart < 1 || nEnd < 2 {
+	if nStart < 1 || nEnd < 1 || nFinal < 1 {
 		r.Bad("C12.R2", fkey(fn, "fu-bits", "floor"), p.Pos(fn.Pos()), "start/end bit stores not found")
 	}
 
